@@ -281,8 +281,17 @@ def check_scaling(case, rec):
                    'entries': [{'path': p, 'hdr': 'full', 'type': 'f32' if case['f32'] else 'f64', 'n': len(inp),
                                 'props': SC.graph_props(graph, True)}],
                    'active': [[p, 'f32' if case['f32'] else 'f64', len(inp)]], 'nchunks': 1, 'data': {p: [inp.tobytes()]}}
+            other_t = TYPES[(TYPES.index(t) + 3) % len(TYPES)]
+            p2 = make_path('g', 'other')
+            seg['entries'].append({'path': p2, 'hdr': 'full', 'type': 'f64', 'n': 1, 'props': SC.graph_props(
+                [{'type': 'Thermocouple', 'src': None, 'p': {'type_code': NI_CODES[other_t], 'direction': 1 - case['direction']}}], True)})
+            seg['active'].append([p2, 'f64', 1])
+            seg['data'][p2] = [np.array([25.0]).tobytes()]
             data, _i, _l = encode_file({'segments': [seg]})
-            ch = TdmsFile.read(io.BytesIO(data))['g']['c']
+            tfile = TdmsFile.read(io.BytesIO(data))
+            ch = tfile['g']['c']
+            ch.read_data(0, 1)
+            tfile['g']['other'].read_data()          # the other channel's scaling is created and used in between
             first = np.array(ch.read_data(), dtype=np.float64)
             got = np.asarray(ch[:], dtype=np.float64)
             if first.tobytes() != got.tobytes() or np.asarray(ch.raw_data).tobytes() != inp.tobytes():
@@ -291,7 +300,12 @@ def check_scaling(case, rec):
                 return
         else:
             arg = inp.copy()
-            got = np.array(scaling.ThermocoupleScaling(NI_CODES[t], case['direction'], 0xFFFFFFFF).scale(arg), dtype=np.float64)
+            sc_obj = scaling.ThermocoupleScaling(NI_CODES[t], case['direction'], 0xFFFFFFFF)
+            # another channel's scaling (other type, other direction) comes into being before this one is used
+            other_t = TYPES[(TYPES.index(t) + 3) % len(TYPES)]
+            decoy = scaling.ThermocoupleScaling(NI_CODES[other_t], 1 - case['direction'], 0xFFFFFFFF)
+            decoy.scale(np.array([25.0]))
+            got = np.array(sc_obj.scale(arg), dtype=np.float64)
             if arg.tobytes() != inp.tobytes():
                 rec.violation('scaling:raw_modified', 'type %s direction %d: scale() overwrote its input array' % (
                     t, case['direction']))
